@@ -457,8 +457,9 @@ func probaNt(sequenceCodes [][]uint8, selectedSites []bool, weights []float64) (
 					for _, n := range id1 {
 						pi[ntByteToId[n]] += w / float64(len(id1))
 					}
+					// only nucleotides count: the frequencies sum to 1
+					total += w
 				}
-				total += w
 			}
 		}
 	}
